@@ -416,6 +416,10 @@ func (ex *Exec) fsIntrinsic(fn *ssa.Function, name string, args []Value) (Value,
 			s.tokens[tok] = args[0]
 			return ex.strConst(tok), true
 		case "decodeString":
+			if !allConst(ex.bytesOf(args[0])) {
+				// arbitrary (symbolic) bytes are not the encoding of anything: the decoder reports an error
+				return Tuple{ex.zero(types.NewSlice(types.Typ[types.Byte])), ex.fsErr("decode")}, true
+			}
 			v, ok := s.tokens[ex.concreteStr(args[0])]
 			if !ok {
 				return Tuple{ex.zero(types.NewSlice(types.Typ[types.Byte])), ex.fsErr("decode")}, true
